@@ -185,6 +185,17 @@ Theorem C04_variational_partial : forall s, entry_ok s ->
 Proof. exact variational_sweep_spec. Qed.
 Print Assumptions C04_variational_partial.
 
+(* also part of the partial clause: the convergence test `mps.distance(mps_old)` of the generated skeleton
+   compares the current object with the state at the end of the PREVIOUS sweep (mps_old is a copy, not an
+   alias of the object the sweep updates in place); with an alias the test is vacuous: *)
+Theorem C04_variational_snapshot : forall (A : Type) (prev cur : A), variational_old prev cur = prev.
+Proof. exact variational_old_is_snapshot. Qed.
+Print Assumptions C04_variational_snapshot.
+Theorem C04_variational_alias_vacuous : forall (A D : Type) (dist : A -> A -> D) (z : D),
+  (forall x, dist x x = z) -> forall prev cur : A, dist cur (if false then prev else cur) = z.
+Proof. exact alias_test_vacuous. Qed.
+Print Assumptions C04_variational_alias_vacuous.
+
 (* ------------------------------------------------------------------------------------------------ *)
 (* non-vacuity                                                                                      *)
 (* ------------------------------------------------------------------------------------------------ *)
